@@ -812,6 +812,9 @@ pub fn emit(prop: &str, g: &mut Gen, out: &mut Vec<String>) {
                 push(out, format!("at_ymd {ct} {ye} {m} {}", g.rng.range(0, 32)));
                 push(out, format!("at_ord {ct} {ye} {}", g.rng.range(0, 367)));
                 push(out, format!("dates_ops {ct} {ye} {m} {}", g.ops(8)));
+                // Display / Debug of every public type under width, fill, precision and sign flags
+                let j = g.jdn(&oc);
+                push(out, format!("fmt_flags {ct} {j} {y} {m} {}", g.rng.range(0, 40)));
             } else {
                 emit(sub, g, out);
             }
@@ -1030,7 +1033,13 @@ pub fn emit(prop: &str, g: &mut Gen, out: &mut Vec<String>) {
                 }
                 _ => {
                     let before = g.rng.chance(1, 2);
-                    let secs: u64 = match g.rng.below(6) {
+                    let secs: u64 = match g.rng.below(7) {
+                        6 => {
+                            // the far ends of what the clock type can represent
+                            g.hit("clock:extreme");
+                            *g.rng.pick(&[i64::MAX as u64, i64::MAX as u64 - 1, i64::MAX as u64 - 2, i64::MAX as u64 + 1,
+                                i64::MAX as u64 + 2, u64::MAX, u64::MAX - 1, 1u64 << 62, (1u64 << 62) - 1])
+                        }
                         0 => g.rng.below(3),
                         1 => 86400 * g.rng.below(100000) + *g.rng.pick(&[0u64, 1, 86399]),
                         2 => 185753453990400 - 2 + g.rng.below(5),
